@@ -114,7 +114,10 @@ func runC03(c *Ctx) {
 					mixed = true
 				}
 				q.nop = c2.VerifC02IsNoP(p)
-			case x < 28 && last > 0: // a fragment of the group the peer asked to abandon
+			case x < 22: // a re-key announcement: ID 0 with the Crypt flag and key material
+				p.Flags = com.FlagCrypt
+				p.Write(r.Bytes(20 + r.Intn(100)))
+			case x < 30 && last > 0: // a fragment of the group the peer asked to abandon
 				p.ID, p.Job = uint8(0x10+r.Intn(0xE0)), uint16(2+r.Intn(60000))
 				p.Flags.SetGroup(last)
 				p.Flags.SetLen(uint16(2 + r.Intn(5)))
